@@ -27,6 +27,7 @@ type GenOpts struct {
 	MoreUnions   bool // always declare unions when there are enough productions, and prefer them as @@ targets
 	WholeBody    bool // some productions consist of exactly one modified group: ( a b )+ , { a | b } "x"
 	EOFRefs      bool // alternatives may end in an explicit EOF reference: ( ";" | EOF )
+	CapTypes     bool // some string-list fields are of a type implementing participle.Capture
 	CatchAll     int  // out of 10: the root becomes ( body )? followed by a capture-everything tail, so that skipping the body still parses
 }
 
@@ -242,7 +243,7 @@ func (pc *prodGen) lit() *Expr {
 	t := pc.s.lits[r.Intn(len(pc.s.lits))]
 	e := &Expr{Op: "lit", Text: t.Text, Single: r.Chance(1, 3)}
 	if pc.s.o.OddLits && r.Chance(1, 6) {
-		e.Text = r.Pick("\"", "\\", "\u00e9\u4e16", "a b", "'", "\t", "a\"b", "\\n", "<", "|", "~", "\n", "x\ny", "\x00", "\u2028")
+		e.Text = r.Pick("\"", "\\", "\u00e9\u4e16", "a b", "'", "\t", "a\"b", "\\n", "<", "|", "~", "\n", "x\ny", "\x00", "\u2028", "%", "%d", "%%", "100%s", "%!", "{{.}}", "$1")
 		e.Single = false
 		return e
 	}
@@ -298,6 +299,10 @@ func (pc *prodGen) alt(depth int, consumed bool) *Expr {
 			}
 			if pc.nullable(k) {
 				k = pc.ensureConsuming(k)
+			}
+			if pc.s.o.NamesElided && pc.s.o.Profile == ProfStateful && r.Chance(1, 6) {
+				// an alternative that consists of nothing but an explicitly named elided token
+				k = &Expr{Op: "ref", Typ: r.Pick("WS", "Comment")}
 			}
 			a.Kids = append(a.Kids, k)
 			prev = k
@@ -748,6 +753,9 @@ func (pc *prodGen) assignFields(p *Prod) {
 				f.Kind = kinds[r.Intn(len(kinds))]
 			} else {
 				f.Kind = r.Pick("string", "strs", "strs", "bool")
+			}
+			if o.CapTypes && f.Kind == "strs" && r.Bool() {
+				f.Kind = "cstrs"
 			}
 		}
 		p.Fields[fi] = f
